@@ -189,7 +189,7 @@ impl<RS: VReadSeek> SeekableChain<RS> {
 //@|        r is Ok ==> old(self).abs_pos + r->Ok_0 <= old(self).all().len(), // O:read.within
 //@|        r is Ok ==> final(buf)@.subrange(0, r->Ok_0 as int) == old(self).all().subrange(old(self).abs_pos as int, old(self).abs_pos + r->Ok_0), // O:read.data
 //@|        r is Ok ==> (r->Ok_0 == 0 ==> old(buf)@.len() == 0 || old(self).abs_pos >= old(self).all().len()), // O:read.eof
-//@   loop 1
+//@   loop 1 `self.chain[self.cur_idx].0 == 0` ?
 //@|    invariant
 //@|        self.wf(), // O:read.inv.wf
 //@|        self.chain@ == old(self).chain@, // O:read.inv.frame
